@@ -38,7 +38,10 @@ CONSTANTS Bug_BytePositions,          \* (A) advances positions by UTF-8 width
           Bug_NoTrimAdjust,           \* (A) trims the text, leaves the ranges alone
           Bug_CloseAllClosesLast,     \* (A) [/] closes only the most recent marker
           Bug_NoSwallow,              \* (A) self-closing markers never swallow whitespace
-          Bug_NoResetSourcePosition   \* parser keeps its source position across calls (C14)
+          Bug_NoResetSourcePosition,  \* parser keeps its source position across calls (C14)
+          PairLast                    \* a close marker pairs with the LAST open marker of its name
+                                      \* (upstream YarnSpinner) instead of the first (this port);
+                                      \* only matters when a name is opened while already open
 
 \* ------------------------------------------------------------------ helpers
 Min(S) == CHOOSE x \in S : \A y \in S : x <= y
@@ -194,6 +197,7 @@ MkAttr(o, endPos, ord) == [name |-> o.name, pos |-> o.pos, len |-> endPos - o.po
                            props |-> PropSet(o.props), src |-> o.src, ord |-> ord]
 
 \* buildAttributesFromMarkers: a close marker pairs with the FIRST open marker of its name
+\* (PairLast: with the most recent one - the other consistent reading of same-name nesting)
 RECURSIVE Build(_, _, _, _)
 Build(marks, i, open, attrs) ==
   IF i > Len(marks) THEN [ok |-> TRUE, attrs |-> attrs]
@@ -203,7 +207,7 @@ Build(marks, i, open, attrs) ==
       [] m.ty = "close" ->
            LET S == {j \in DOMAIN open : open[j].name = m.name} IN
            IF S = {} THEN [ok |-> FALSE, attrs |-> <<>>]
-           ELSE LET j == Min(S) IN
+           ELSE LET j == IF PairLast THEN Max(S) ELSE Min(S) IN
                 Build(marks, i + 1, RemoveAt(open, j), Append(attrs, MkAttr(open[j], m.pos, n + 1)))
       [] m.ty = "closeall" ->
            IF Bug_CloseAllClosesLast /\ open # <<>>
@@ -359,28 +363,22 @@ ItemCps(it) == CASE it.k \in {"ch", "esc"} -> <<it.c>>
 
 DistinctPropNames(ps) == \A i, j \in DOMAIN ps : i # j => ps[i].n # ps[j].n
 
-\* marker discipline: a close names an open marker, no marker is opened while one of
-\* the same name is open, reserved names are not used, nothing stays open
+\* marker discipline: a close names an open marker, reserved names are not used, nothing
+\* stays open.  `open` is the sequence of the names open so far (a name may be open
+\* several times: same-name nesting, paired as PairLast says).
+RemoveOne(s, n) == LET j == Min({k \in DOMAIN s : s[k] = n}) IN RemoveAt(s, j)
+InSeq(s, n) == \E k \in DOMAIN s : s[k] = n
 RECURSIVE Discipline(_, _, _)
 Discipline(items, i, open) ==
-  IF i > Len(items) THEN open = {}
+  IF i > Len(items) THEN open = <<>>
   ELSE LET it == items[i] IN
-    CASE it.k = "open" -> it.name \notin open /\ it.name \notin Reserved /\ it.name # <<>>
-                          /\ Discipline(items, i + 1, open \cup {it.name})
-      [] it.k = "close" -> it.name \in open /\ Discipline(items, i + 1, open \ {it.name})
-      [] it.k = "closeall" -> Discipline(items, i + 1, {})
-      [] it.k = "nomarkup" -> Discipline(items, i + 1, IF it.close = "all" THEN {} ELSE open)
+    CASE it.k = "open" -> it.name \notin Reserved /\ it.name # <<>>
+                          /\ Discipline(items, i + 1, Append(open, it.name))
+      [] it.k = "close" -> InSeq(open, it.name) /\ Discipline(items, i + 1, RemoveOne(open, it.name))
+      [] it.k = "closeall" -> Discipline(items, i + 1, <<>>)
+      [] it.k = "nomarkup" -> Discipline(items, i + 1, IF it.close = "all" THEN <<>> ELSE open)
       [] it.k = "self" -> it.name \notin Reserved /\ it.name # <<>> /\ Discipline(items, i + 1, open)
       [] OTHER -> Discipline(items, i + 1, open)
-
-\* swallowed whitespace inside the region (linear recursion; agrees with Swallowed there)
-RECURSIVE SwC13(_, _)
-SwC13(items, i) ==
-  /\ i > 1 /\ items[i].k = "ch" /\ IsSpace(items[i].c)
-  /\ items[i - 1].k = "self" /\ ~TrimOff(items[i - 1].props)
-  /\ \/ i = 2
-     \/ i > 2 /\ items[i - 2].k = "ch" /\ IsSpace(items[i - 2].c) /\ ~SwC13(items, i - 2)
-     \/ i > 2 /\ items[i - 2].k = "pfx" /\ items[i - 2].ws # <<>>
 
 ItemOK(items, i) ==
   LET it == items[i] IN
@@ -395,10 +393,9 @@ ItemOK(items, i) ==
     [] it.k = "self" ->
          /\ DistinctPropNames(it.props)
          /\ HasProp(it.props, S_trimwhitespace) => Prop(it.props, S_trimwhitespace).t = "bool"
-         \* rule 5 is only exercised where it is unambiguous
-         /\ \/ i = 1
-            \/ i > 1 /\ items[i - 1].k = "ch" /\ ~SwC13(items, i - 1)
-            \/ i > 1 /\ items[i - 1].k = "pfx"
+         \* rule 5 after an escaped bracket is left out: there the code remembers the
+         \* character before the backslash, which neither reading of the rule asks for
+         /\ (i > 1 => items[i - 1].k # "esc")
     [] it.k \in ReplKinds ->
          /\ DistinctPropNames(it.props) /\ ~HasProp(it.props, S_trimwhitespace)
          /\ Replacement(it).ok
@@ -411,7 +408,7 @@ ItemOK(items, i) ==
 
 WellFormedC13(items) ==
   /\ \A i \in DOMAIN items : ItemOK(items, i)
-  /\ Discipline(items, 1, {})
+  /\ Discipline(items, 1, <<>>)
   /\ \A i \in DOMAIN items : NoColon(ItemCps(items[i]))
 
 \* lines on which the two formulations are comparable: no marker opened while another of
